@@ -430,8 +430,15 @@ def r4_combination(ctx):
         ctx.form(ids_def in b, DC, f"DataCombination.{q}", "index ranges are range(len(list)) per list, in list order", detail=[x for x in b if x.startswith("ids")])
         loops = [l for l in ast.walk(f) if isinstance(l, ast.For)]
         ctx.form(len(loops) == 1 and norm(loops[0].iter) == "itertools.product(*ids)", DC, f"DataCombination.{q}", "index tuples enumerate the Cartesian product of the ranges", detail=[norm(l.iter) for l in loops])
-    loops = [l for l in ast.walk(v) if isinstance(l, ast.For)]
-    ctx.check(len(loops) == 1 and norm(loops[0].iter) == "itertools.product(*self._items)", DC, "DataCombination.values", "value tuples enumerate the Cartesian product of the lists", detail=[norm(l.iter) for l in loops])
+    srcs = [norm(l.iter) for l in ast.walk(v) if isinstance(l, ast.For)] + [norm(y.value) for y in ast.walk(v) if isinstance(y, ast.YieldFrom)] + \
+           [norm(r.value) for r in ast.walk(v) if isinstance(r, ast.Return) and r.value is not None]
+    what = "value tuples enumerate the Cartesian product of the lists"
+    if srcs == ["itertools.product(*self._items)"] or srcs == ["product(*self._items)"]:
+        ctx.holds(DC, "DataCombination.values", what)
+    elif any(x.startswith(("zip(", "itertools.zip_longest(", "itertools.chain(", "itertools.combinations(", "itertools.permutations(")) for x in srcs):
+        ctx.violated(DC, "DataCombination.values", what, detail=srcs, expected="itertools.product(*self._items)")
+    else:
+        ctx.form(False, DC, "DataCombination.values", what, detail=srcs)
     ys = [y for y in ast.walk(it) if isinstance(y, ast.Yield)]
     if len(ys) != 1 or not isinstance(ys[0].value, ast.Tuple) or len(ys[0].value.elts) != 2:
         ctx.unrecognised(DC, "DataCombination.items", "yield", "yield keys, values not found")
